@@ -163,6 +163,11 @@ func (fc *FCtx) lookupName(name string, env *Env) (Val, bool) {
 			}
 		}
 	}
+	if obj, ok := fc.renames[name]; ok {
+		if v, ok := st.vars[obj]; ok {
+			return v, true
+		}
+	}
 	if env.gsuf != "" {
 		if v, ok := st.ghost[name+env.gsuf]; ok {
 			return v, true
@@ -747,6 +752,16 @@ func (fc *FCtx) specCall(n *SNode, env *Env) Val {
 		fc.iterSort()
 		fc.U.Fun("pcount", []*Sort{fc.U.StoreSort(), fc.U.BzSort()}, SInt)
 		return Val{T: fmt.Sprintf("(pcount %s %s)", args[0].T, fc.toBz(args[1])), S: SInt}
+	case "fvresult":
+		// fvresult(i): the i-th result of the last call made through a function value (a handler looked up in a router)
+		if len(n.Args) != 2 || n.Args[1].Op != "num" {
+			oos("spec: fvresult needs a literal result index")
+		}
+		if v, ok := env.state().ghost["fv@r"+n.Args[1].Name]; ok {
+			return v
+		}
+		// no such call on this path: an unconstrained value (clauses about it are guarded by the path's outcome)
+		return Val{T: fc.U.Fresh("nofv", SInt), S: SInt}
 	case "isolated":
 		evalArgs()
 		suf, ok := fc.ctxSuffixOf[args[0].T]
@@ -797,6 +812,8 @@ func (fc *FCtx) specCall(n *SNode, env *Env) Val {
 		bzs := fc.U.BzSort()
 		fc.U.Fun("conv_Bz_Str", []*Sort{bzs}, SStr)
 		fc.U.Fun("conv_Str_Bz", []*Sort{SStr}, bzs)
+		// []byte(s) is never nil (the empty string converts to an empty, non-nil slice) and has the string's length
+		fc.U.Axiom("[]byte(string): non-nil, same length", "(forall ((s Str)) (! (and (not (= (conv_Str_Bz s) bz_nil)) (= (bz_len (conv_Str_Bz s)) (str_len s))) :pattern ((conv_Str_Bz s))))")
 		return Val{T: app("conv_Str_Bz", args[0].T), S: bzs}
 	case "itlen":
 		evalArgs()
